@@ -39,13 +39,13 @@ theorem C16_linear_reading (subs : List Slot) (lm : List Nat) (h : PermMap subs.
     padded positions are paired with the sources chosen by `_map_substrates_to_labelmap`; a map
     of the wrong length is rejected with `ValueError` -/
 theorem C16_linear_reactions (lv : List (Name × Nat)) (r : BRxn) (lm : List Nat)
-    (others : List (Name × List (Name × Int)))
+    (baseRxns : List (Name × List (Name × Int))) (hlk : baseRxns.lookup r.name = some r.stoich)
     (hlab : ∀ c ∈ subsOf r ++ prodsOf r, (lv.lookup c).isSome) :
-    linRxnsOf (isosOf lv) ((r.name, r.stoich) :: others) r.name lm =
+    linRxnsOf (isosOf lv) baseRxns r.name lm =
       if lm.length < max (nSub lv r) (nProd lv r) then .error .valueError
       else (mapSubstratesToLabelmap (paddedSubs lv r) lm).map
         (fun res => slotRxns r.name 0 res (paddedProds lv r)) :=
-  linRxnsOf_eq lv r lm others hlab
+  linRxnsOf_eq lv r lm baseRxns hlk hlab
 
 /-- **label flux per position** (mass-action rate, distinct labelled occurrences, non-zero pools):
     in the isotopomer model the rates of the reactions whose substrate pattern is labelled at padded
@@ -69,17 +69,18 @@ theorem C16_position_flux_partial {lv : List (Name × Nat)} {r : BRxn} {lm : Lis
     divided by the pool of `x`.  (Both models' right-hand sides are sums of such contributions
     over the base reactions.) -/
 theorem C16_marginal_partial (lv : List (Name × Nat)) (r : BRxn) (lm : List Nat)
-    (others : List (Name × List (Name × Int))) (rs : List LRxn) (lrs : List LinRxn)
+    (baseRxns : List (Name × List (Name × Int))) (rs : List LRxn) (lrs : List LinRxn)
+    (hlk : baseRxns.lookup r.name = some r.stoich)
     (hlab : ∀ c ∈ subsOf r ++ prodsOf r, (lv.lookup c).isSome)
     (hiso : isotopomerReactions lv r lm = .ok rs)
-    (hlin : linRxnsOf (isosOf lv) ((r.name, r.stoich) :: others) r.name lm = .ok lrs)
+    (hlin : linRxnsOf (isosOf lv) baseRxns r.name lm = .ok lrs)
     (hm : MassAction lv r) (hd : DistinctOccurrences lv r)
     (hinv : InvolutiveMap (max (nSub lv r) (nProd lv r)) lm) (σ : LName → Rat)
     (hC : ∀ c ∈ subsOf r, labelsOf lv c > 0 → totalOf σ c (labelsOf lv c) ≠ 0)
     (C : Name → Rat) (x : Name) (i : Nat) :
     linRhs lrs (enrichOf lv σ) (fun _ => r.rate (totalsEnv lv σ)) C (Slot.pos x i)
       = (1 / C x) * ((labelledAt x (labelsOf lv x) i).map (rhsOf rs σ)).sum := by
-  rw [linRxnsOf_eq lv r lm others hlab, if_neg (by rw [hinv.1.length]; omega)] at hlin
+  rw [linRxnsOf_eq lv r lm baseRxns hlk hlab, if_neg (by rw [hinv.1.length]; omega)] at hlin
   have hinv' : InvolutiveMap (paddedSubs lv r).length lm := by rw [paddedSubs_length]; exact hinv
   rw [mapSubstratesToLabelmap_involutive _ lm hinv'] at hlin
   simp only [Except.map, Except.ok.injEq] at hlin
@@ -126,14 +127,15 @@ example : DistinctOccurrences [("A", 1), ("B", 1), ("C", 2)]
     external pool have enrichment `e`, one base reaction contributes
     (net stoichiometry of the compound) · e · flux / pool to each of the compound's positions … -/
 theorem C16_uniform_contribution (lv : List (Name × Nat)) (r : BRxn) (lm : List Nat)
-    (others : List (Name × List (Name × Int))) (lrs : List LinRxn)
+    (baseRxns : List (Name × List (Name × Int))) (lrs : List LinRxn)
+    (hlk : baseRxns.lookup r.name = some r.stoich)
     (hlab : ∀ c ∈ subsOf r ++ prodsOf r, (lv.lookup c).isSome)
     (hperm : PermMap (max (nSub lv r) (nProd lv r)) lm)
-    (hlin : linRxnsOf (isosOf lv) ((r.name, r.stoich) :: others) r.name lm = .ok lrs)
+    (hlin : linRxnsOf (isosOf lv) baseRxns r.name lm = .ok lrs)
     (e : Rat) (v C : Name → Rat) (x : Name) (i : Nat) (hi : i < labelsOf lv x) :
     linRhs lrs (fun _ => e) v C (Slot.pos x i)
       = (netStoich r.stoich x : Rat) * (1 / C x) * (e * v r.name) := by
-  rw [linRxnsOf_eq lv r lm others hlab, if_neg (by rw [hperm.length]; omega)] at hlin
+  rw [linRxnsOf_eq lv r lm baseRxns hlk hlab, if_neg (by rw [hperm.length]; omega)] at hlin
   have hperm' : PermMap (paddedSubs lv r).length lm := by rw [paddedSubs_length]; exact hperm
   obtain ⟨res, hres, hrl, _⟩ := mapSubstratesToLabelmap_perm _ lm hperm'
   rw [hres] at hlin
@@ -152,13 +154,14 @@ theorem C16_uniform_contribution (lv : List (Name × Nat)) (r : BRxn) (lm : List
     fluxes) uniform enrichment equal to the external pool is stationary in the linear model:
     the contributions of the base reactions cancel -/
 theorem C16_uniform_stationary (lv : List (Name × Nat))
-    (rl : List (BRxn × List Nat × List (Name × List (Name × Int)) × List LinRxn))
-    (hall : ∀ t ∈ rl, (∀ c ∈ subsOf t.1 ++ prodsOf t.1, (lv.lookup c).isSome) ∧
+    (baseRxns : List (Name × List (Name × Int))) (rl : List (BRxn × List Nat × List LinRxn))
+    (hall : ∀ t ∈ rl, baseRxns.lookup t.1.name = some t.1.stoich ∧
+      (∀ c ∈ subsOf t.1 ++ prodsOf t.1, (lv.lookup c).isSome) ∧
       PermMap (max (nSub lv t.1) (nProd lv t.1)) t.2.1 ∧
-      linRxnsOf (isosOf lv) ((t.1.name, t.1.stoich) :: t.2.2.1) t.1.name t.2.1 = .ok t.2.2.2)
+      linRxnsOf (isosOf lv) baseRxns t.1.name t.2.1 = .ok t.2.2)
     (e : Rat) (v C : Name → Rat) (x : Name) (i : Nat) (hi : i < labelsOf lv x)
     (hsteady : (rl.map fun t => (netStoich t.1.stoich x : Rat) * v t.1.name).sum = 0) :
-    linRhs (rl.map (·.2.2.2)).flatten (fun _ => e) v C (Slot.pos x i) = 0 := by
+    linRhs (rl.map (·.2.2)).flatten (fun _ => e) v C (Slot.pos x i) = 0 := by
   have hadd : ∀ (gs : List (List LinRxn)),
       linRhs gs.flatten (fun _ => e) v C (Slot.pos x i)
         = (gs.map fun g => linRhs g (fun _ => e) v C (Slot.pos x i)).sum := by
@@ -169,12 +172,12 @@ theorem C16_uniform_stationary (lv : List (Name × Nat))
       simp only [List.flatten_cons, List.map_cons, List.sum_cons, ← ih]
       simp [linRhs, List.map_append, List.sum_append]
   rw [hadd, List.map_map]
-  have : ∀ t ∈ rl, ((fun g => linRhs g (fun _ => e) v C (Slot.pos x i)) ∘ (·.2.2.2)) t
+  have : ∀ t ∈ rl, ((fun g => linRhs g (fun _ => e) v C (Slot.pos x i)) ∘ (·.2.2)) t
       = ((netStoich t.1.stoich x : Rat) * v t.1.name) * ((1 / C x) * e) := by
     intro t ht
-    obtain ⟨h1, h2, h3⟩ := hall t ht
+    obtain ⟨h0, h1, h2, h3⟩ := hall t ht
     simp only [Function.comp]
-    rw [C16_uniform_contribution lv t.1 t.2.1 t.2.2.1 t.2.2.2 h1 h2 h3 e v C x i hi]
+    rw [C16_uniform_contribution lv t.1 t.2.1 baseRxns t.2.2 h0 h1 h2 h3 e v C x i hi]
     grind
   rw [List.map_congr_left this, sum_map_mul_right, hsteady]
   grind
